@@ -152,7 +152,16 @@ def check(case, acc, tmp):
 
     def fresh(x):
         return list(x) if isinstance(x, list) else x
-    forms = {'by_id': lambda i, md: fresh(L[i]), 'by_md': lambda i, md: fresh(labs[md['slot']])}
+    cur = {}        # the table being partitioned / collapsed right now
+
+    def reading(i, md):
+        # a labelling function that looks something up in the same table along the other axis while it is called
+        oth_ids = m0.ids(other(axis))
+        if oth_ids:
+            cur['t'].data(oth_ids[0], axis=other(axis))
+        return fresh(L[i])
+    forms = {'by_id': lambda i, md: fresh(L[i]), 'by_md': lambda i, md: fresh(labs[md['slot']]),
+             'by_id_reading': reading}
     if case.get('partial'):
         del forms['by_md']          # the labelling by metadata needs the category on every id
     strlabs = all((isinstance(x, str) and x != '') or x is None for x in labs)
@@ -169,6 +178,7 @@ def check(case, acc, tmp):
         for rem in (False, True):
             for ign in (False, True):
                 t, _ = mk()
+                cur['t'] = t
                 acc.trans += 1
                 kw = dict(form=fname, remove_empty=rem, ignore_none=ign)
                 try:
@@ -219,7 +229,12 @@ def check(case, acc, tmp):
     if case.get('partition_only'):
         return          # collapsing vectors of length zero is refused by the constructor of the result
     L2 = {i: aslabel(L[i]) for i in ids}
-    cforms = {'by_id': lambda i, md: L2[i], 'by_md': lambda i, md: L2[ids[md['slot']]]}
+    def creading(i, md):
+        oth_ids = m0.ids(other(axis))
+        if oth_ids:
+            cur['t'].data(oth_ids[0], axis=other(axis))
+        return L2[i]
+    cforms = {'by_id': lambda i, md: L2[i], 'by_md': lambda i, md: L2[ids[md['slot']]], 'by_id_reading': creading}
     if case.get('partial'):
         del cforms['by_md']
     for fname, f in cforms.items():
@@ -227,6 +242,7 @@ def check(case, acc, tmp):
             for mgs in (1, 2):
                 for inc in (True, False):
                     t, _ = mk()
+                    cur['t'] = t
                     kw = dict(form=fname, norm=norm, min_group_size=mgs, include_collapsed_metadata=inc)
                     acc.trans += 1
                     groups = m0.groups(axis, lambda i, md: L2[i])
